@@ -99,8 +99,7 @@ def battery(work, src):
     rec('roots-leaves', ([s.id for s in wn.taxonomy.roots(w, pos='n')], [s.id for s in wn.taxonomy.leaves(w, pos='n')]))
     rec('taxonomy_depth', wn.taxonomy.taxonomy_depth(w, 'n'))
     freq = wn.ic.compute(['worda', 'wordb', 'wordd', 'worde', 'wordx', 'wordr'], w)
-    rec('ic.compute', sorted((pos, sorted(d.items(), key=str)) for pos, d in freq.items()) if False else
-        {pos: [(k, d[k]) for k in sorted(d, key=str)] for pos, d in freq.items()})
+    rec('ic.compute', {pos: [(k, d[k]) for k in sorted(d, key=str)] for pos, d in freq.items()})
     for sr in (False, True):
         for a in sss:
             for b in sss:
